@@ -61,6 +61,39 @@ CHECKS = {
         "alphabet (<=5 encodings per type); trap representations of bool are never fed (harness UB).",
         "DESIGN.md section 3, C04",
     ),
+    "C05": (
+        "exploration",
+        "bounded-exhaustive comparison of every exported constant of compiled generated code with the PyDSDL model + buffer-size sweep",
+        "A compiled probe per shard prints every exported macro / trait / constant (extent, buffer size, names, port id, array "
+        "capacities, union option count, DSDL constants of every primitive kind at extreme magnitudes) of the generated C and "
+        "C++ code, Python reads class attributes; all must equal the PyDSDL model (float constants: exact rational rounded to the "
+        "declared type within one ulp). Every output buffer size 0..max+1 is tried for three values per type: success iff the "
+        "buffer holds the maximum serialized size, else buffer-too-small; size <= buffer size <= extent.",
+        "PyDSDL 1.25 is the oracle; gcc 12; probes compiled with -w (diagnostics are C06's subject).",
+        "DESIGN.md section 3, C05",
+    ),
+    "C09": (
+        "exploration",
+        "bounded-exhaustive token enumeration against a configuration-derived oracle",
+        "Every string of length <=5 over a 12-symbol alphabet, every reserved word with variants, a witness and near-misses per "
+        "reserved pattern and exotic unicode strings are passed to the real Language.filter_id, crossed with 6 id types x c/cpp/py "
+        "x 5 stropping configurations; each result must be a valid unreserved identifier or an exception, identical for cold/warm "
+        "cache, a fresh object and two fresh processes with other hash seeds, and already-valid inputs must come back unchanged.",
+        "Oracle derived from properties.yaml parsed independently (+ keyword.kwlist / builtins); trusted base PyYAML, re, "
+        "str.isidentifier; length bound 5.",
+        "DESIGN.md section 3, C09",
+    ),
+    "C11": (
+        "exploration",
+        "bounded-exhaustive type-set x configuration x order enumeration on the real tree builder + sandboxed nnvg runs",
+        "Every subset of <=4 types of a 12-type universe (depth 1-3, empty intermediates, three versions, stropped components, one "
+        "stropping fold per language family) is written as real DSDL and handed to the real build_namespace_tree for 4 languages x "
+        "extensions x stems x 5 output spellings x every order of the type list and forced set iteration orders; the public model "
+        "API is compared with an independently computed prefix closure and path formula; for sets of <=2 types nnvg runs in a "
+        "snapshotted sandbox (files created == map, nothing outside the output directory, cross-root includes hit real files).",
+        "PyDSDL 1.25 and the language object's stropping of a single token (C09's subject) are trusted; one root, 12 types.",
+        "DESIGN.md section 3, C11",
+    ),
     "C14": (
         "exploration",
         "bounded-exhaustive enumeration of primitive calls in compiled drivers (ASan/UBSan) vs bit-at-a-time reference",
@@ -85,6 +118,19 @@ CHECKS = {
         "DESIGN.md section 3, C15",
     ),
 }
+
+CHECKS["C19"] = (
+    "exploration",
+    "bounded-exhaustive differential template rendering (bundled vs stock Jinja2) + reference-filter twin templates",
+    "Every template of a 42-fragment, 10-wrapper grammar (<=3 fragments, nesting <=2, 5 flag sets, LF/CRLF, 3 contexts: 98,164 "
+    "templates) is rendered by the bundled engine and by stock Jinja2 3.1.6 and must agree; every placement of the auto-indent "
+    "marker (18 constructs x enclosures x leads x trails x 5 indentations) is checked against the splitlines formula and a twin "
+    "template with an independent reference filter; assert and use-query tags are checked against Python evaluation over all "
+    "truth assignments.",
+    "Stock Jinja2 3.1.6 is the oracle; two upstream-drift constructs are excluded and re-verified each run with the de-modified "
+    "lexer; exception messages and the final line terminator of an auto-indented construct are not compared.",
+    "DESIGN.md section 3, C19",
+)
 
 ALL = [f"C{i:02d}" for i in range(1, 21)]
 
